@@ -25,6 +25,8 @@ pub struct DocKind {
     pub invalid: fn() -> Vec<String>,
     /// may a comment line precede the first paragraph? (a copyright file must START with its Format field)
     pub leading_comment_ok: bool,
+    /// documented synonyms: (alias field, canonical field of the first paragraph's struct); the canonical field wins when both are present
+    pub aliases: &'static [(&'static str, &'static str)],
 }
 
 fn items_of<T: ToDeb822Paragraph<lossy::Paragraph>>(v: &T) -> Items {
@@ -184,15 +186,15 @@ fn sh_repos() -> Vec<Vec<&'static str>> {
 
 pub fn kinds() -> Vec<DocKind> {
     vec![
-        DocKind { id: "lossy control file", shapes: control_shapes, parse: control_parse, equal: |a, b| by_print(control_parse, a, b), value_order: control_order, invalid: control_invalid, leading_comment_ok: true },
-        DocKind { id: "lossy copyright file", shapes: copyright_shapes, parse: copyright_parse, equal: copyright_equal, value_order: copyright_order, invalid: copyright_invalid, leading_comment_ok: false },
-        DocKind { id: "apt Sources stanza", shapes: sh_apt_source, parse: apt_source_parse, equal: apt_source_eq, value_order: identity_order, invalid: no_invalid, leading_comment_ok: true },
-        DocKind { id: "apt Packages stanza", shapes: sh_apt_package, parse: apt_package_parse, equal: apt_package_eq, value_order: identity_order, invalid: no_invalid, leading_comment_ok: true },
-        DocKind { id: "apt Release stanza", shapes: sh_apt_release, parse: apt_release_parse, equal: apt_release_eq, value_order: identity_order, invalid: no_invalid, leading_comment_ok: true },
-        DocKind { id: "removal record", shapes: sh_removal, parse: removal_parse, equal: removal_eq, value_order: identity_order, invalid: no_invalid, leading_comment_ok: true },
-        DocKind { id: "lossy buildinfo", shapes: sh_buildinfo, parse: buildinfo_parse, equal: buildinfo_eq, value_order: identity_order, invalid: no_invalid, leading_comment_ok: true },
-        DocKind { id: "DEP-3 header", shapes: sh_dep3, parse: dep3_parse, equal: dep3_eq, value_order: identity_order, invalid: no_invalid, leading_comment_ok: true },
-        DocKind { id: "APT sources list", shapes: sh_repos, parse: repos_parse, equal: repos_equal, value_order: identity_order, invalid: no_invalid, leading_comment_ok: true },
+        DocKind { id: "lossy control file", shapes: control_shapes, parse: control_parse, equal: |a, b| by_print(control_parse, a, b), value_order: control_order, invalid: control_invalid, leading_comment_ok: true, aliases: &[] },
+        DocKind { id: "lossy copyright file", shapes: copyright_shapes, parse: copyright_parse, equal: copyright_equal, value_order: copyright_order, invalid: copyright_invalid, leading_comment_ok: false, aliases: &[] },
+        DocKind { id: "apt Sources stanza", shapes: sh_apt_source, parse: apt_source_parse, equal: apt_source_eq, value_order: identity_order, invalid: no_invalid, leading_comment_ok: true, aliases: &[] },
+        DocKind { id: "apt Packages stanza", shapes: sh_apt_package, parse: apt_package_parse, equal: apt_package_eq, value_order: identity_order, invalid: no_invalid, leading_comment_ok: true, aliases: &[] },
+        DocKind { id: "apt Release stanza", shapes: sh_apt_release, parse: apt_release_parse, equal: apt_release_eq, value_order: identity_order, invalid: no_invalid, leading_comment_ok: true, aliases: &[] },
+        DocKind { id: "removal record", shapes: sh_removal, parse: removal_parse, equal: removal_eq, value_order: identity_order, invalid: no_invalid, leading_comment_ok: true, aliases: &[] },
+        DocKind { id: "lossy buildinfo", shapes: sh_buildinfo, parse: buildinfo_parse, equal: buildinfo_eq, value_order: identity_order, invalid: no_invalid, leading_comment_ok: true, aliases: &[] },
+        DocKind { id: "DEP-3 header", shapes: sh_dep3, parse: dep3_parse, equal: dep3_eq, value_order: identity_order, invalid: no_invalid, leading_comment_ok: true, aliases: &[("From", "Author"), ("Subject", "Description")] },
+        DocKind { id: "APT sources list", shapes: sh_repos, parse: repos_parse, equal: repos_equal, value_order: identity_order, invalid: no_invalid, leading_comment_ok: true, aliases: &[] },
     ]
 }
 
@@ -200,6 +202,8 @@ pub fn kinds() -> Vec<DocKind> {
 pub enum C20Case {
     /// kind id, shape index, per paragraph the presence/value vector (0 absent, i+1 = valid value i), layout 0..4
     Doc { kind: String, shape: usize, vs: Vec<Vec<usize>>, layout: usize },
+    /// like Doc (layout 0) with a documented alias field in the first paragraph: pair index, mode 0 = alias instead of the canonical field, 1 = both (different values), 2 = alias only plus an unrelated foreign field
+    Alias { kind: String, shape: usize, vs: Vec<Vec<usize>>, pair: usize, mode: usize },
     /// like Doc, with mandatory field `field` of paragraph `para` deleted
     Missing { kind: String, shape: usize, para: usize, field: usize },
     Structural { kind: String, i: usize },
@@ -220,7 +224,7 @@ fn specs_of(shape: &[&'static str]) -> Option<Vec<ParaSpec>> {
 }
 
 /// the distinguishing field of a role must keep distinct values across paragraphs of the same role
-fn render_doc(specs: &[ParaSpec], vs: &[Vec<usize>], layout: usize, leading_ok: bool) -> (String, Vec<Vec<(String, String, Norm)>>) {
+fn render_doc(specs: &[ParaSpec], vs: &[Vec<usize>], layout: usize, leading_ok: bool) -> (String, Vec<Vec<(String, String, Norm, String)>>) {
     let mut text = String::new();
     let mut model = vec![];
     if (layout == 1 || layout == 3) && leading_ok {
@@ -246,7 +250,7 @@ fn render_doc(specs: &[ParaSpec], vs: &[Vec<usize>], layout: usize, leading_ok: 
                 text.push_str("# a field comment\n");
             }
             text.push_str(&render_para(&[(fs.name, val)]));
-            fields.push((fs.name.to_string(), val.to_string(), fs.norm));
+            fields.push((fs.name.to_string(), val.to_string(), fs.norm, fs.name.to_string()));
         }
         model.push(fields);
     }
@@ -256,10 +260,38 @@ fn render_doc(specs: &[ParaSpec], vs: &[Vec<usize>], layout: usize, leading_ok: 
     (text, model)
 }
 
-fn check_doc(kind: &DocKind, shape: &[&'static str], vs: &[Vec<usize>], layout: usize) -> Vec<Viol> {
+fn check_doc(kind: &DocKind, shape: &[&'static str], vs: &[Vec<usize>], layout: usize, alias: Option<(usize, usize)>) -> Vec<Viol> {
     let mut out = vec![];
     let Some(specs) = specs_of(shape) else { return vec![viol("harness", format!("missing field table for {:?}", shape))] };
-    let (text, model) = render_doc(&specs, vs, layout, kind.leading_comment_ok);
+    let mut vs: Vec<Vec<usize>> = vs.to_vec();
+    let mut alias_line: Option<(String, String, String)> = None; // (alias name, alias value, canonical name)
+    if let Some((pair, mode)) = alias {
+        let Some((al, canon)) = kind.aliases.get(pair) else { return vec![] };
+        let Some(ci) = specs[0].fields.iter().position(|f| f.name == *canon) else { return vec![] };
+        if mode == 1 {
+            if vs[0][ci] == 0 {
+                vs[0][ci] = 1;
+            }
+        } else {
+            vs[0][ci] = 0;
+        }
+        alias_line = Some((al.to_string(), format!("alias value for {}", canon), canon.to_string()));
+    }
+    let vs = &vs[..];
+    let (mut text, mut model) = render_doc(&specs, vs, layout, kind.leading_comment_ok);
+    if let Some((al, aval, canon)) = &alias_line {
+        // the alias line goes at the end of the first paragraph
+        let first_end = text.find("\n\n").map(|i| i + 1).unwrap_or(text.len());
+        let mode = alias.unwrap().1;
+        let extra = if mode == 2 { format!("X-Foreign: keep\n{}: {}\n", al, aval) } else { format!("{}: {}\n", al, aval) };
+        text.insert_str(first_end, &extra);
+        if mode != 1 {
+            // the typed value carries the alias's text under the canonical name, at the canonical field's declaration position
+            let ci = specs[0].fields.iter().position(|f| f.name == canon.as_str()).unwrap();
+            let pos = specs[0].fields[..ci].iter().filter(|f| model[0].iter().any(|m| m.0 == f.name)).count();
+            model[0].insert(pos, (canon.clone(), aval.clone(), specs[0].fields[ci].norm, al.clone()));
+        }
+    }
     if model.iter().any(|p| p.is_empty()) {
         return vec![]; // a paragraph without any field is not a paragraph
     }
@@ -284,13 +316,14 @@ fn check_doc(kind: &DocKind, shape: &[&'static str], vs: &[Vec<usize>], layout: 
                 continue;
             }
             let raw = &ll_paras[*fi];
-            let want: Vec<(String, Vec<Vec<String>>)> = model[*fi].iter().map(|(k, v, n)| (k.clone(), normalise(*n, v))).collect();
+            let want: Vec<(String, Vec<Vec<String>>)> = model[*fi].iter().map(|(k, v, n, _)| (k.clone(), normalise(*n, v))).collect();
             // what the lossless reader shows must be what was written
-            let shown: Vec<(String, Vec<Vec<String>>)> = raw.iter().filter_map(|(k, v)| model[*fi].iter().find(|(mk, _, _)| mk == k).map(|(_, _, n)| (k.clone(), normalise(*n, v)))).collect();
+            // (a field read through an alias is shown by the lossless reader under the alias's name)
+            let shown: Vec<(String, Vec<Vec<String>>)> = model[*fi].iter().filter_map(|(mk, _, n, rawname)| raw.iter().find(|(k, _)| k == rawname).map(|(_, v)| (mk.clone(), normalise(*n, v)))).collect();
             if shown != want {
                 out.push(viol("harness", ctx(&format!("lossless view {:?} differs from what was written {:?}", shown, want))));
             }
-            let got: Vec<(String, Vec<Vec<String>>)> = items.iter().map(|(k, v)| (k.clone(), model[*fi].iter().find(|(mk, _, _)| mk == k).map(|(_, _, n)| normalise(*n, v)).unwrap_or_else(|| vec![vec![v.clone()]]))).collect();
+            let got: Vec<(String, Vec<Vec<String>>)> = items.iter().map(|(k, v)| (k.clone(), model[*fi].iter().find(|(mk, _, _, _)| mk == k).map(|(_, _, n, _)| normalise(*n, v)).unwrap_or_else(|| vec![vec![v.clone()]]))).collect();
             if got != want {
                 out.push(viol("matches-lossless-view", ctx(&format!("paragraph {} ({}): typed value carries {:?}, the lossless reader shows {:?}", fi, role, got, want))));
             }
@@ -330,7 +363,7 @@ impl Prop for C20 {
         "exploration"
     }
     fn rule(&self, _t: Tier) -> String {
-        "per document kind (lossy control, copyright, apt Sources / Packages / Release stanza, removal record, lossy buildinfo, DEP-3 header, APT sources list): every paragraph sequence of its shape list (source before / between / after binaries; header + Files / licence paragraphs in every order; 1-2 repositories), with every presence/value vector within k deviations (k = 1, thorough 2) of the all-mandatory and the all-present baselines over the concatenated field tables, in 4 layouts (plain; leading + field comments; two blank separators + trailing blank; comments between paragraphs); each document is parsed, compared field by field with the lossless reader's view, printed, re-parsed, compared and printed again; every mandatory field deleted in turn and every structurally invalid variant must be rejected; non-trivial = all".into()
+        "per document kind (lossy control, copyright, apt Sources / Packages / Release stanza, removal record, lossy buildinfo, DEP-3 header, APT sources list): every paragraph sequence of its shape list (source before / between / after binaries; header + Files / licence paragraphs in every order; 1-2 repositories), with every presence/value vector within k deviations (k = 1, thorough 2) of the all-mandatory and the all-present baselines over the concatenated field tables, in 4 layouts (plain; leading + field comments; two blank separators + trailing blank; comments between paragraphs); each document is parsed, compared field by field with the lossless reader's view, printed, re-parsed, compared and printed again; documented alias fields (DEP-3 From/Subject) instead of, next to, and together with a foreign field next to the canonical field; every mandatory field deleted in turn and every structurally invalid variant must be rejected; non-trivial = all".into()
     }
     fn bounds(&self, t: Tier) -> Value {
         json!({"kinds": kinds().iter().map(|k| json!({"id": k.id, "shapes": (k.shapes)().len(), "invalid_variants": (k.invalid)().len()})).collect::<Vec<_>>(), "k": t.pick(1, 2), "layouts": 4})
@@ -398,6 +431,14 @@ impl Prop for C20 {
                     kdev_shard(&menus, k, Some(first), &mut |dv| emit(dv, f));
                 }
             }
+            for pair in 0..kind.aliases.len() {
+                for which in 0..2 {
+                    let vs: Vec<Vec<usize>> = specs.iter().enumerate().map(|(pi, sp)| base_vectors(sp, which, pi)).collect();
+                    for mode in 0..3 {
+                        f(&C20Case::Alias { kind: kind.id.to_string(), shape: idx, vs: vs.clone(), pair, mode });
+                    }
+                }
+            }
             for (pi, sp) in specs.iter().enumerate() {
                 for (fi, fld) in sp.fields.iter().enumerate() {
                     // deleting the Files field turns a Files paragraph into a (valid) stand-alone licence paragraph
@@ -422,7 +463,13 @@ impl Prop for C20 {
                 let Some(k) = ks.iter().find(|k| k.id == kind) else { return vec![] };
                 let shapes = (k.shapes)();
                 let Some(sh) = shapes.get(*shape) else { return vec![] };
-                check_doc(k, sh, vs, *layout)
+                check_doc(k, sh, vs, *layout, None)
+            }
+            C20Case::Alias { kind, shape, vs, pair, mode } => {
+                let Some(k) = ks.iter().find(|k| k.id == kind) else { return vec![] };
+                let shapes = (k.shapes)();
+                let Some(sh) = shapes.get(*shape) else { return vec![] };
+                check_doc(k, sh, vs, 0, Some((*pair, *mode)))
             }
             C20Case::Missing { kind, shape, para, field } => {
                 let Some(k) = ks.iter().find(|k| k.id == kind) else { return vec![] };
@@ -452,6 +499,7 @@ impl Prop for C20 {
                 if vs.is_empty() {
                     st.outcome(match c {
                         C20Case::Doc { .. } => "stable",
+                        C20Case::Alias { .. } => "alias-ok",
                         C20Case::Missing { .. } => "missing-rejected",
                         C20Case::Structural { .. } => "invalid-rejected",
                     });
